@@ -19,7 +19,7 @@ RULE = ("valid-by-construction derivations of the RFC 9535 grammar (AST-first sa
         "member-name shorthand (quick: block boundaries + sample; thorough: all). A compile() failure is confirmed against the strict "
         "Earley recogniser + well-typedness + integer range before it is reported (a generator slip is an internal error, not a verdict); "
         "1 in 8 accepted strings is also recognised as a self-check. A long-sweep compiles 38 flat repetition forms (dotted / bracket / descendant chains, selector lists, && / || chains, long embedded queries and function arguments, long literals, names and blank runs) at 100 to 1000 (thorough: 3000) repetitions; each form's validity is confirmed by the recogniser on its 3-fold instance. Non-trivial: the rendering used at least one optional lexical "
-        "alternative; distinct by string.")
+        "alternative; distinct by string. Concurrent part: 3 to 8 threads compile valid queries (random ones and five nesting forms - parentheses, !( ), filter in filter, ( && ), bracketed selection in a function argument - at 10 to 200 levels) on the default environment at the same moment with GIL hand-offs injected on package lines; every query that compiled alone in a thread must compile concurrently to the same str().")
 ASSUMPTIONS = ["strict ABNF transcription in vf/oracle/abnf.py (lark Earley) and vf/oracle/typing.py define validity",
                "numbers restricted to exactly representable values (|int| <= 2^53-1, finite floats)"]
 DECIDING_MONITORS = ["M-compile"]
@@ -83,6 +83,7 @@ def plan(tier, seed, nproc, scale):
     specs.append({"kind": "ws-sweep", "seed": "%d/ws" % seed, "templates": 12 if tier == "quick" else 300})
     specs.append({"kind": "lex-sweep", "seed": "%d/lex" % seed})
     specs.append({"kind": "long-sweep", "seed": "%d/long" % seed, "ks": [100, 300, 480, 520, 700, 1000] + ([2000, 3000] if tier != "quick" else [])})
+    specs += [{"kind": "threads", "seed": "%d/t%d" % (seed, i), "runs": 2 if tier == "quick" else 10} for i in range(4 if tier == "quick" else nproc)]
     # code point sweep
     if tier == "quick":
         specs.append({"kind": "cp-sweep", "seed": "%d/cp" % seed, "mode": "sample"})
@@ -151,6 +152,8 @@ def run_shard(spec, rec):
         cp_sweep(jp, rec, R, spec)
     elif kind == "long-sweep":
         long_sweep(jp, rec, R, spec)
+    elif kind == "threads":
+        thread_part(jp, rec, R, spec)
 
 
 TEMPLATES = [
@@ -337,8 +340,91 @@ def long_sweep(jp, rec, R, spec):
     rec.sample({"long_forms": [f[0] for f in LONG_FORMS], "repetitions": spec["ks"]}, limit=1)
 
 
+NEST_FORMS = [
+    ("paren", "$[?", "(", "@.a", ")", "]"),
+    ("not-paren", "$[?", "!(", "@.a == 1", ")", "]"),
+    ("filter-in-filter", "$", "[?@", ".a", "]", ""),
+    ("paren-and", "$[?", "(@.b && ", "@.a", ")", "]"),
+    ("bracket-in-argument", "$[?count(", "@[?count(", "@.*", ") > 0]", ") > 1]"),
+]
+
+
+def nested(form, d):
+    name, pre, op, core, cl, suf = form
+    return pre + op * d + core + cl * d + suf
+
+
+def thread_part(jp, rec, R, spec):
+    """Several threads compile valid queries on the SAME (default) environment at the same moment, with GIL hand-offs injected on
+    package lines. Differential oracle, independent of how deep a nesting this interpreter's stack supports: every query was first
+    compiled alone in a thread of its own; one that compiled alone must compile concurrently, to a query with the same str()."""
+    import threading
+    from ..threads import run_threads
+    for run in range(spec["runs"]):
+        cfg = G.Cfg(filters=True, regex_functions=True, max_depth=3)
+        gen = G.QGen(R, cfg)
+        nthreads = R.choice([3, 4, 6, 8])
+        texts = []
+        for k in range(nthreads):
+            mine = []
+            for _ in range(3):
+                form = R.choice(NEST_FORMS)
+                mine.append(("nest:" + form[0], nested(form, R.choice([10, 30, 60, 100, 150, 200]))))
+            for _ in range(3):
+                mine.append(("random", G.render(gen.query(root="$"), R)))
+            R.shuffle(mine)
+            texts.append(mine)
+        solo = {}
+
+        def alone():
+            for mine in texts:
+                for _, t in mine:
+                    if t not in solo:
+                        try:
+                            solo[t] = ("ok", str(jp.compile(t)))
+                        except BaseException as e:  # noqa: BLE001
+                            solo[t] = ("raise", type(e).__name__)
+        th = threading.Thread(target=alone, daemon=True)
+        th.start()
+        th.join(120)
+        if th.is_alive():
+            rec.timeout("solo compiles of thread run %d did not finish" % run)
+            continue
+        got = [[] for _ in range(nthreads)]
+
+        def work(k):
+            for rep in range(2):
+                for src, t in texts[k]:
+                    try:
+                        got[k].append((src, t, ("ok", str(jp.compile(t)))))
+                    except BaseException as e:  # noqa: BLE001
+                        got[k].append((src, t, ("raise", type(e).__name__ + ": " + str(e)[:120])))
+        hung, switches, sites, errors = run_threads(jp, "%s/%d" % (spec["seed"], run), nthreads, work, R.choice([0.05, 0.2, 0.5]))
+        if hung:
+            rec.timeout("thread run %d did not finish" % run)
+            continue
+        rec.feat("thread-runs")
+        rec.feat("thread-switches-inside-package", switches)
+        rec.case(("threads", spec["seed"], run), switches > 0)
+        bad = None
+        for k in range(nthreads):
+            for src, t, o in got[k]:
+                if solo[t][0] != "ok":
+                    rec.feat("thread-solo-refused:" + src)
+                    continue
+                rec.monitor("M-compile")
+                rec.feat("thread-compile:" + src)
+                if o != solo[t] and bad is None:
+                    bad = {"query": t if len(t) < 300 else t[:120] + " ... (%d characters)" % len(t), "source": src, "compiled_alone": solo[t][1][:200],
+                           "compiled_concurrently": list(o)[:2], "threads": nthreads, "switches_inside_package": switches}
+        if bad:
+            rec.violation("concurrent-compile-differs", bad)
+
+
 def finish(m, tier):
     out = []
+    if m["features"].get("thread-runs", 0) and m["features"].get("thread-switches-inside-package", 0) == 0:
+        out.append("the concurrent part observed no thread switch inside package code")
     if m["features"].get("generator-slip", 0) or m["features"].get("selfcheck-disagreement", 0) or m["features"].get("selfcheck-ast-mismatch", 0):
         m["notes"].append("generator/recogniser self-check disagreements are machinery defects, see notes")
     return out
